@@ -10,8 +10,26 @@
 
 #define NOINLINE __attribute__((noinline))
 static volatile int ct_sink;
+static unsigned char SEC[8][32];   /* secret material, from the file */
+/* TAINT MODE (-DVH_CT_TAINT -DVALGRIND, run under valgrind memcheck): at the begin marker the secret file contents and the
+ * secret parts of objects derived from them during set-up (registered with TAINT) are marked UNDEFINED, the context is created
+ * with SECP256K1_CONTEXT_DECLASSIFY so that the library's own declassifications mark their values defined again, and every
+ * memcheck report between the markers (branch or address computed from undefined data) becomes a "Tainted" event of the
+ * trace.  After the end marker reporting is switched off (the recorder itself prints secret-derived bytes). */
+#ifdef VH_CT_TAINT
+#include <valgrind/memcheck.h>
+static struct { void *p; size_t n; } TAINTS[16]; static int NTAINT = 0;
+#define TAINT(ptr, len) do { TAINTS[NTAINT].p = (void*)(ptr); TAINTS[NTAINT].n = (len); NTAINT++; } while (0)
+#define CT_CTX_FLAGS SECP256K1_CONTEXT_DECLASSIFY
+NOINLINE void vh_ct_begin(void) { int i; VALGRIND_MAKE_MEM_UNDEFINED(SEC, sizeof(SEC)); for (i = 0; i < NTAINT; i++) VALGRIND_MAKE_MEM_UNDEFINED(TAINTS[i].p, TAINTS[i].n);
+                                  ct_sink = 1; __asm__ __volatile__("" ::: "memory"); }
+NOINLINE void vh_ct_end(void) { VALGRIND_DISABLE_ERROR_REPORTING; ct_sink = 2; __asm__ __volatile__("" ::: "memory"); }
+#else
+#define TAINT(ptr, len) do { (void)(ptr); } while (0)
+#define CT_CTX_FLAGS SECP256K1_CONTEXT_NONE
 NOINLINE void vh_ct_begin(void) { ct_sink = 1; __asm__ __volatile__("" ::: "memory"); }
 NOINLINE void vh_ct_end(void) { ct_sink = 2; __asm__ __volatile__("" ::: "memory"); }
+#endif
 NOINLINE void vh_ct_declass(void) { ct_sink = 3; __asm__ __volatile__("" ::: "memory"); }
 
 static unsigned char DECL[4096]; static size_t DECL_LEN = 0; static size_t DECL_N = 0; static size_t DECL_LENS[256];
@@ -20,7 +38,6 @@ static void ct_declassify_cb(const void *p, size_t len) {
     vh_ct_declass();
 }
 
-static unsigned char SEC[8][32];   /* secret material, from the file */
 static unsigned char PUBOUT[1024]; static size_t PUBOUT_LEN = 0;
 static unsigned char PUBIN[2048]; static size_t PUBIN_LEN = 0;
 /* public ARGUMENTS of the call under test (part of the comparison key) */
@@ -34,11 +51,21 @@ int main(int argc, char **argv) {
     if (argc < 5) return 2;
     api = argv[1]; var = atoi(argv[2]);
     f = fopen(argv[3], "rb"); if (!f || fread(SEC, 1, sizeof(SEC), f) != sizeof(SEC)) return 2; fclose(f);
-    ctx = secp256k1_context_create(SECP256K1_CONTEXT_NONE);
+    ctx = secp256k1_context_create(CT_CTX_FLAGS);
     memset(msg, 0x3c, 32); msg[0] = (unsigned char)var; memset(pubseed, 0x6b, 32);
     if (var & 1) { if (!secp256k1_context_randomize(ctx, pubseed)) return 2; }   /* public variation: randomized vs unrandomized context */
+    if (var & 8) {   /* the context was randomized with a SECRET seed (as in src/ctime_tests.c): its blinding state is secret data.
+                      * In taint mode the seed is undefined already here, so the definedness of every field of the blinding state
+                      * (including the infinity flag of ge_offset) is whatever the library's own computation propagates. */
+#ifdef VH_CT_TAINT
+        VALGRIND_MAKE_MEM_UNDEFINED(SEC[3], 32);
+#endif
+        if (!secp256k1_context_randomize(ctx, SEC[3])) return 2;
+    }
     if (!secp256k1_ec_pubkey_create(ctx, &peer, peer_sk)) return 2;
-    secp256k1_verif_declassify_cb = ct_declassify_cb;
+#ifdef SECP256K1_ZKP_VERIF
+    secp256k1_verif_declassify_cb = ct_declassify_cb;   /* taint mode is built WITHOUT the hooks: the unmodified library is observed */
+#endif
 
 #define API(name) if (!strcmp(api, name))
     API("pubkey_create") { vh_ct_begin(); ret = secp256k1_ec_pubkey_create(ctx, &pk, SEC[0]); vh_ct_end(); pub_add(&pk, sizeof(pk)); }
@@ -50,9 +77,9 @@ int main(int argc, char **argv) {
     API("seckey_tweak_add") { vh_ct_begin(); ret = secp256k1_ec_seckey_tweak_add(ctx, SEC[0], SEC[1]); vh_ct_end(); }
     API("seckey_tweak_mul") { vh_ct_begin(); ret = secp256k1_ec_seckey_tweak_mul(ctx, SEC[0], SEC[1]); vh_ct_end(); }
     API("keypair_create") { vh_ct_begin(); ret = secp256k1_keypair_create(ctx, &kp, SEC[0]); vh_ct_end(); }
-    API("keypair_xonly_tweak_add") { if (!secp256k1_keypair_create(ctx, &kp, SEC[0])) return 2; DECL_LEN = DECL_N = 0; vh_ct_begin(); ret = secp256k1_keypair_xonly_tweak_add(ctx, &kp, msg); vh_ct_end(); }
-    API("keypair_sec") { unsigned char o[32]; if (!secp256k1_keypair_create(ctx, &kp, SEC[0])) return 2; DECL_LEN = DECL_N = 0; vh_ct_begin(); ret = secp256k1_keypair_sec(ctx, o, &kp); vh_ct_end(); }
-    API("schnorrsig_sign") { unsigned char s[64]; if (!secp256k1_keypair_create(ctx, &kp, SEC[0])) return 2; DECL_LEN = DECL_N = 0; vh_ct_begin(); ret = secp256k1_schnorrsig_sign32(ctx, s, msg, &kp, (var & 2) ? SEC[1] : NULL); vh_ct_end(); pub_add(s, 64); }
+    API("keypair_xonly_tweak_add") { if (!secp256k1_keypair_create(ctx, &kp, SEC[0])) return 2; DECL_LEN = DECL_N = 0; TAINT(kp.data, 32); vh_ct_begin(); ret = secp256k1_keypair_xonly_tweak_add(ctx, &kp, msg); vh_ct_end(); }
+    API("keypair_sec") { unsigned char o[32]; if (!secp256k1_keypair_create(ctx, &kp, SEC[0])) return 2; DECL_LEN = DECL_N = 0; TAINT(kp.data, 32); vh_ct_begin(); ret = secp256k1_keypair_sec(ctx, o, &kp); vh_ct_end(); }
+    API("schnorrsig_sign") { unsigned char s[64]; if (!secp256k1_keypair_create(ctx, &kp, SEC[0])) return 2; DECL_LEN = DECL_N = 0; TAINT(kp.data, 32); vh_ct_begin(); ret = secp256k1_schnorrsig_sign32(ctx, s, msg, &kp, (var & 2) ? SEC[1] : NULL); vh_ct_end(); pub_add(s, 64); }
     API("ellswift_create") { unsigned char e[64]; vh_ct_begin(); ret = secp256k1_ellswift_create(ctx, e, SEC[0], (var & 2) ? pubseed : NULL); vh_ct_end(); } /* auxrnd32 is PUBLIC in the maintainers' inventory (src/ctime_tests.c passes defined bytes) */
     API("ellswift_xdh") { unsigned char e1[64], e2[64], o[32]; if (!secp256k1_ellswift_create(ctx, e1, peer_sk, NULL)) return 2; memcpy(e2, e1, 64); e2[5] ^= 1; DECL_LEN = DECL_N = 0;
         vh_ct_begin(); ret = secp256k1_ellswift_xdh(ctx, o, e1, e2, SEC[0], (var >> 1) & 1, secp256k1_ellswift_xdh_hash_function_bip324, NULL); vh_ct_end(); }
@@ -66,7 +93,7 @@ int main(int argc, char **argv) {
         vh_ct_begin(); ret = secp256k1_ecdsa_adaptor_decrypt(ctx, &s, SEC[0], a); vh_ct_end(); }
     API("context_randomize") { vh_ct_begin(); ret = secp256k1_context_randomize(ctx, SEC[0]); vh_ct_end(); }
     API("musig_nonce_gen") { secp256k1_musig_secnonce sn; secp256k1_musig_pubnonce pn; unsigned char rnd[32]; memcpy(rnd, SEC[1], 32);
-        if (!secp256k1_ec_pubkey_create(ctx, &pk, SEC[0])) return 2; DECL_LEN = DECL_N = 0;
+        if (!secp256k1_ec_pubkey_create(ctx, &pk, SEC[0])) return 2; DECL_LEN = DECL_N = 0; TAINT(rnd, 32);
         vh_ct_begin(); ret = secp256k1_musig_nonce_gen(ctx, &sn, &pn, rnd, SEC[0], &pk, msg, NULL, (var & 2) ? SEC[2] : NULL); vh_ct_end(); }
     API("musig_partial_sign") { secp256k1_musig_secnonce sn; secp256k1_musig_pubnonce pn, pn2, pn3; secp256k1_musig_secnonce sn2; unsigned char rnd[32], rnd2[32]; secp256k1_musig_keyagg_cache cache;
         const secp256k1_pubkey *pks[2]; const secp256k1_musig_pubnonce *pns[2]; secp256k1_musig_aggnonce agg; secp256k1_musig_session sess; secp256k1_musig_partial_sig ps; secp256k1_pubkey adaptor;
@@ -81,11 +108,13 @@ int main(int argc, char **argv) {
         pns[0] = &pn2; pns[1] = &pn3; if (!secp256k1_musig_nonce_agg(ctx, &agg, pns, (var & 2) ? 2 : 1)) return 2;
         if (!secp256k1_ec_pubkey_create(ctx, &adaptor, peer_sk)) return 2;
         if (!secp256k1_musig_nonce_process(ctx, &sess, &agg, msg, &cache, (var & 4) ? &adaptor : NULL)) return 2; DECL_LEN = DECL_N = 0;
-        pubin_add(&cache, sizeof(cache)); pubin_add(&sess, sizeof(sess));
+        pubin_add(&cache, sizeof(cache)); pubin_add(&sess, sizeof(sess)); TAINT(kp.data, 32); TAINT(sn.data + 4, 64);
         vh_ct_begin(); ret = secp256k1_musig_partial_sign(ctx, &ps, &sn, &kp, &cache, &sess); vh_ct_end(); pub_add(&ps, sizeof(ps)); }
     API("musig_adapt") { unsigned char sig[64], pre[64]; memset(pre, 0x21, 64); pre[32] = 0;
         vh_ct_begin(); ret = secp256k1_musig_adapt(ctx, sig, pre, SEC[0], var & 1); vh_ct_end(); }
+#ifdef SECP256K1_ZKP_VERIF
     secp256k1_verif_declassify_cb = NULL;
+#endif
     if (ret == -1) { fprintf(stderr, "ct_runner: unknown api %s\n", api); return 2; }
 
     f = fopen(argv[4], "w"); if (!f) return 2;
